@@ -229,7 +229,7 @@ class DiskCache:
         """
         try:
             raw_bytes = pickle.dumps(value)
-        except (pickle.PicklingError, TypeError, AttributeError, ValueError, RecursionError):
+        except Exception:  # noqa: BLE001 - pickling raises anything (RuntimeError for multiprocessing locks, a user's __reduce__ ...)
             logger.warning("Cache write skipped: output not picklable for key %s", key)
             return
 
@@ -252,7 +252,7 @@ def compute_cache_key(definition_hash: str, inputs: dict[str, Any]) -> str:
     try:
         sorted_items = sorted(inputs.items())
         inputs_bytes = pickle.dumps(sorted_items)
-    except (pickle.PicklingError, TypeError, AttributeError, ValueError, RecursionError) as exc:
+    except Exception as exc:  # noqa: BLE001 - pickling raises anything (RuntimeError for multiprocessing locks, a user's __reduce__ ...)
         logger.warning("Cache miss: inputs not picklable (%s)", exc)
         return ""
     content = definition_hash.encode() + inputs_bytes
